@@ -34,7 +34,7 @@ let () =
     while true do
       let line = input_line ic in
       let toks = Array.of_list (String.split_on_char ' ' line) in
-      (* C id steps seed onwdm R v... M a=v... P a... *)
+      (* C id steps seed onwdm R v... M a=v... P a... [O history]   history: one letter per entry, S = Step, R = Reset, I = TriggerIRQ *)
       let id = int_of_string toks.(1) and steps = int_of_string toks.(2)
       and seed = int_of_string toks.(3) and onwdm = toks.(4) = "1" in
       let regs = Array.make nfields Z0 in
@@ -52,10 +52,16 @@ let () =
         incr i
       done;
       incr i;
+      let ops = ref "" in
       while !i < Array.length toks do
-        if toks.(!i) <> "" then Hashtbl.replace onpc (int_of_string toks.(!i)) ();
-        incr i
+        if toks.(!i) = "O" then (ops := toks.(!i + 1); i := Array.length toks)
+        else begin
+          if toks.(!i) <> "" then Hashtbl.replace onpc (int_of_string toks.(!i)) ();
+          incr i
+        end
       done;
+      let ops = !ops in
+      let op_at k = if k < String.length ops then ops.[k] else 'S' in
       let nreg = !nreg in
       (try
         for step = 0 to steps - 1 do
@@ -66,10 +72,15 @@ let () =
                      trace = [];
                      onpc = (fun a -> Hashtbl.mem onpc (int_of_z a));
                      onwdm = onwdm } in
-          match step_fn s0 with
+          let opc = op_at step in
+          let r = match opc with
+            | 'R' -> (match reset_fn s0 with Panic -> Panic | Ok (_, s1) -> Ok ((Z0, false), s1))
+            | 'I' -> (match irq_fn s0 with Panic -> Panic | Ok (_, s1) -> Ok ((Z0, false), s1))
+            | _ -> step_fn s0 in
+          match r with
           | Panic -> Buffer.add_string buf (Printf.sprintf "%d %d PANIC\n" id step); raise Exit
           | Ok ((cyc, stopped), s1) ->
-            Buffer.add_string buf (Printf.sprintf "%d %d OK %d %d R" id step (int_of_z cyc) (if stopped then 1 else 0));
+            Buffer.add_string buf (Printf.sprintf "%d %d %s %d %d R" id step (if opc = 'S' then "OK" else String.make 1 opc) (int_of_z cyc) (if stopped then 1 else 0));
             for k = 1 to nreg do
               let v = s1.regs (match z_of_int k with Zpos p -> Npos p | _ -> N0) in
               regs.(k) <- v;
